@@ -2,8 +2,7 @@
    [reach cf s]: s is reachable from the fresh server by any interleaving of the atomic steps of the Serve accept loops, the
    connection goroutines (request loop of serveConnCounted, serveConnCleanup), ShutdownWithContext (stop flag, closeListenersLocked,
    close(s.done), loop { closeIdleConns; serving / open check; ticker | ctx.Done }), clients (send, close) and the clock, for any
-   number of Serve calls and connections.  [greach]: the same, restricted by `guard` (Model/Shutdown.v): no closeIdleConns pass
-   meets a connection with request data in hand. *)
+   number of Serve calls and connections, with pipelining and with requests arriving while idle connections are being closed. *)
 From FH Require Import Model.Base Model.Shutdown Spec.ShutdownSpec Proof.ShutdownProof Proof.ShutdownGraceful.
 Open Scope Z_scope.
 
@@ -37,36 +36,32 @@ Theorem C15_handler_accounting : forall cf s, reach cf s -> Forall cwf (conns s)
 Proof. exact accounting. Qed.
 Print Assumptions C15_handler_accounting.
 
-(* Full statement: "every request whose handler started before or during shutdown had its response written (on a connection the server had
-   not closed)".  It is FALSE of the code (finding closeidle-drops-unflushed-response-of-pipelined-conn, reproduced on the real server by the
-   harness): closeIdleConns closes a connection that is marked idle while the response of its last request is still in the writer because a
-   pipelined request is buffered.  Two other ways in which it used to fail are repaired and modelled as repaired: the stop check dropping an
-   unflushed response (66dbd41) and a request read just before closeIdleConns closed the connection being served on the closed connection
-   (3ea360e); the two examples below replay those schedules. *)
-Theorem C15_started_handlers_answered_refuted :
-  (exists s, reach (mkCfg false false) s /\ sd s = SReturnedNil /\ exists r, In r (conns s) /\ dropped_response r) /\
-  (exists s, reach (mkCfg true false) s /\ sd s = SReturnedNil /\ exists r, In r (conns s) /\ dropped_response r).
-Proof. destruct refuted_closeidle_unflushed as [H1 H2]. split; eapply refuted_spec; eauto. Qed.
-Print Assumptions C15_started_handlers_answered_refuted.
+(* "Every request whose handler started before or during shutdown had its response written": when Shutdown returns nil, every handler that was
+   ever started on any connection has its response at the client, unless the client itself had closed the connection (lostc); the server made
+   no response undeliverable (lost = 0) - it neither closed a connection under a started handler nor dropped a response from its writer.
+   Full strength, all interleavings.  This is the code after three repairs that this property's harness led to (66dbd41 flush on the stop
+   check, 3ea360e no handler on a connection closeIdleConns has just closed, ce44e94 a connection in the middle of a pipeline is not marked
+   idle); before them the statement was false, the three schedules are replayed in the examples below. *)
+Theorem C15_started_handlers_answered : forall cf s, reach cf s -> sd s = SReturnedNil ->
+  Forall (fun r => answered r /\ lost r = 0) (conns s).
+Proof. exact answered_at_return. Qed.
+Print Assumptions C15_started_handlers_answered.
 
-(* It holds on the schedules the guard leaves: at every moment nothing is lost by the server's doing, a finished connection has all its
-   started handlers answered (or the client had closed), and so has every connection when Shutdown returns nil. *)
-Theorem C15_started_handlers_answered_guarded : forall cf s, greach cf s ->
-  Forall (fun r => lost r = 0) (conns s) /\ Forall (fun r => pc r = CClosed -> answered r) (conns s) /\
-  (sd s = SReturnedNil -> Forall answered (conns s)).
-Proof.
-  intros cf s G. split; [exact (nothing_lost cf s G)|]. split; [exact (answered_on_guarded_schedules cf s G)|exact (answered_at_return cf s G)].
-Qed.
-Print Assumptions C15_started_handlers_answered_guarded.
+(* Stronger, at every moment: as long as Shutdown has not returned an error the server has lost no response, and every finished connection
+   has all its started handlers answered. *)
+Theorem C15_nothing_lost_unless_shutdown_gave_up : forall cf s, reach cf s -> sd s <> SReturnedErr ->
+  Forall (fun r => lost r = 0) (conns s) /\ Forall (fun r => pc r = CClosed -> answered r) (conns s).
+Proof. intros cf s R H. split; [exact (nothing_lost cf s R H)|exact (answered_when_done cf s R H)]. Qed.
+Print Assumptions C15_nothing_lost_unless_shutdown_gave_up.
 
-(* The guard excludes exactly the step the finding is about; pipelining by itself needs no guard.  (The guard is sufficient, not necessary:
-   since 3ea360e a connection closed with an unanswered request in hand and an empty writer loses nothing while Shutdown runs.) *)
-Theorem C15_guard_is_tight :
-  first_unguarded (mkCfg false false) init unflushed_trace = None /\
-  first_unguarded (mkCfg false false) init closeidle_unflushed_trace = Some LCloseIdle /\
-  first_unguarded (mkCfg true false) init closeidle_unflushed_trace_dl = Some LCloseIdle.
-Proof. exact guard_excludes_witnesses. Qed.
-Print Assumptions C15_guard_is_tight.
+(* The condition is needed: after ShutdownWithContext returned ctx.Err() the stop flag is reset, and a connection that closeIdleConns closed with a
+   request in hand serves it on the closed connection ("When ShutdownWithContext returns errors, any operation to the Server is unavailable"). *)
+Example C15_ex_after_error_return_a_response_can_be_lost :
+  match run (mkCfg false false) init gave_up_trace with
+  | Some s => sd s = SReturnedErr /\ map lost (conns s) = [1; 0]
+  | None => False
+  end.
+Proof. exact after_error_return_a_response_can_be_lost. Qed.
 
 (* Idle keep-alive connections are closed by the next closeIdleConns pass ... *)
 Theorem C15_idle_closed : forall cf s s', step cf s LCloseIdle = Some s' ->
@@ -90,7 +85,6 @@ Example C15_ex_graceful :
       match run (mkCfg false false) s1 graceful_shutdown with
       | Some s => sd s = SReturnedNil /\ map started (conns s) = [1; 1; 1] /\ map delivered (conns s) = [1; 1; 1]
                   /\ map srvClosed (conns s) = [true; true; false] /\ n_lost s = 0 /\ doneClosed s = true
-                  /\ first_unguarded (mkCfg false false) init (graceful_trace ++ graceful_shutdown) = None
       | None => False
       end
   | None => False
@@ -110,6 +104,17 @@ Example C15_ex_request_in_hand_is_not_served_now :
   | None => False
   end.
 Proof. exact closeidle_request_in_hand_is_not_served_now. Qed.
+
+Example C15_ex_pipelined_conn_is_not_closed_as_idle_now :
+  (match run (mkCfg false false) init closeidle_unflushed_trace with
+   | Some s => sd s = SReturnedNil /\ map started (conns s) = [2] /\ map delivered (conns s) = [2] /\ n_lost s = 0 /\ map srvClosed (conns s) = [false]
+   | None => False
+   end) /\
+  (match run (mkCfg true false) init closeidle_unflushed_trace with
+   | Some s => sd s = SReturnedNil /\ map started (conns s) = [2] /\ map delivered (conns s) = [2] /\ n_lost s = 0
+   | None => False
+   end).
+Proof. exact pipelined_conn_is_not_closed_as_idle_now. Qed.
 
 (* Shutdown on a server on which Serve was never called returns at once; a context that expires gives an error and resets the stop flag *)
 Example C15_ex_no_listener : run (mkCfg false false) init [LSetStop] = Some (set_sd init SReturnedNil).
